@@ -2,10 +2,15 @@
 
    The machine abstracts everything about the program except its lock nesting: any number of threads,
    any number of locks, each thread requests / is granted / releases locks.  The ONLY constraint on
-   a thread's behaviour is the nesting relation E: it may request lock b while holding a only if
-   (a, b) is in E (for EVERY lock a it holds at that moment).  E is what the tracing lock wrapper
+   a thread's behaviour is the nesting relation E: a thread of role r may request lock b while holding a
+   only if (r, (a, b)) is in E (for EVERY lock a it holds at that moment).  E is what the tracing lock wrapper
    (/repo/pkg/locking/locking_verif.go, build tag verif) records from the running scheduler: one edge
-   from every lock still held by the goroutine to the lock it requests, instance level, distinct locks only.
+   from every lock still held by the goroutine to the lock it requests, instance level, distinct locks only,
+   tagged with the role of the goroutine (scheduling loop, RM event handler, REST reader, ...).
+   Roles matter only for the refined check `order_ok`: a role may be declared SINGLE (the program has at most
+   one thread of that role, e.g. the scheduling loop); a cycle of E all of whose edges belong to one single
+   role cannot deadlock, because a wait-for cycle needs two different threads.  The plain check `acyclic`
+   ignores roles (any thread may use any edge).
 
    RW locks: read and write acquisitions are treated alike (conservative: a wait between two readers is
    possible in Go when a writer queues in between).  The grant rule is a parameter of the machine
@@ -16,7 +21,10 @@ Import ListNotations.
 
 Definition lock := N.
 Definition edge := (lock * lock)%type.
+Definition role := N.
+Definition tedge := (role * edge)%type.      (* role of the requesting thread, (held, requested) *)
 Definition thread := nat.
+Definition untag (E : list tedge) : list edge := map snd E.
 
 (* ---------- the machine ---------- *)
 Record tstate := mkT { held : list lock; waiting : option lock }.
@@ -30,16 +38,17 @@ Definition upd (s : state) (t : thread) (x : tstate) : state :=
 Definition free (s : state) (l : lock) : Prop := forall u, ~ In l (held (s u)).
 
 Section Machine.
-  Variable E : list edge.
+  Variable E : list tedge.
+  Variable role_of : thread -> role.
   (* grant rule; the only requirement used (by the progress theorem) is that a free lock can be granted *)
   Variable can_grant : state -> thread -> lock -> Prop.
 
-  (* a thread holding hs may request l *)
-  Definition allowed (hs : list lock) (l : lock) : Prop := forall h, In h hs -> In (h, l) E.
+  (* a thread of role r holding hs may request l *)
+  Definition allowed (r : role) (hs : list lock) (l : lock) : Prop := forall h, In h hs -> In (r, (h, l)) E.
 
   Inductive step : state -> state -> Prop :=
   | StepRequest : forall s t l,
-      waiting (s t) = None -> ~ In l (held (s t)) -> allowed (held (s t)) l ->
+      waiting (s t) = None -> ~ In l (held (s t)) -> allowed (role_of t) (held (s t)) l ->
       step s (upd s t (mkT (held (s t)) (Some l)))
   | StepGrant : forall s t l,
       waiting (s t) = Some l -> can_grant s t l ->
@@ -117,6 +126,21 @@ Definition rank (E : list edge) : lock -> nat := rank_in (ranks E) (S (length E)
 
 Definition acyclic (E : list edge) : bool :=
   let rk := rank E in forallb (fun e => Nat.ltb (rk (fst e)) (rk (snd e))) E.
+
+(* ---------- refined check: cycles confined to one single role are harmless ----------
+   rk is a rank certificate (found by the harness, or `rank`): every edge must climb strictly, or stay on its
+   level provided its role is single and every other level edge of that level has the same role. *)
+Definition tfrom (e : tedge) : lock := fst (snd e).
+Definition tto (e : tedge) : lock := snd (snd e).
+Definition flat (rk : lock -> nat) (e : tedge) : bool := Nat.eqb (rk (tfrom e)) (rk (tto e)).
+Definition order_ok (single : role -> bool) (rk : lock -> nat) (E : list tedge) : bool :=
+  forallb (fun e =>
+    if Nat.ltb (rk (tfrom e)) (rk (tto e)) then true
+    else if negb (flat rk e) then false
+    else if negb (single (fst e)) then false
+    else forallb (fun e' =>
+           if flat rk e' then (if Nat.eqb (rk (tfrom e')) (rk (tfrom e)) then N.eqb (fst e') (fst e) else true)
+           else true) E) E.
 
 (* a claimed cycle c = [l0; l1; ...; ln-1] (ln = l0) consists of edges of E *)
 Fixpoint chain_in (E : list edge) (first : lock) (c : list lock) : bool :=
